@@ -460,10 +460,18 @@ fn check_tx_validity<C: ContentAddrStore>(
 }
 
 fn proof_is_tip910(proof: Proof, puzzle: &HashVal, difficulty: u32) -> Result<bool, StateError> {
+    // melpow shifts by 64 - difficulty, and indexes the proof's node map without checking that the node
+    // is there: a difficulty outside 1..=64 or a proof with missing nodes makes Proof::verify panic.
+    // Such a proof is simply invalid.
+    if !(1..=64).contains(&difficulty) {
+        return Err(StateError::InvalidMelPoW);
+    }
+    let verify_legacy = || proof.verify(puzzle, difficulty as _, LegacyMelPowHash);
+    let verify_tip910 = || proof.verify(puzzle, difficulty as _, Tip910MelPowHash);
     // try verifying the proof under the old and the new system
-    if proof.verify(puzzle, difficulty as _, LegacyMelPowHash) {
+    if std::panic::catch_unwind(std::panic::AssertUnwindSafe(verify_legacy)).unwrap_or(false) {
         Ok(false)
-    } else if proof.verify(puzzle, difficulty as _, Tip910MelPowHash) {
+    } else if std::panic::catch_unwind(std::panic::AssertUnwindSafe(verify_tip910)).unwrap_or(false) {
         Ok(true)
     } else {
         Err(StateError::InvalidMelPoW)
